@@ -23,12 +23,13 @@ Dist2(p, c) == (D10(p[1]) - D10(c[1])) * (D10(p[1]) - D10(c[1])) + (D10(p[2]) - 
 MinC(P, i) == CHOOSE x \in {P[k][i] : k \in 1..Len(P)} : \A y \in {P[k][i] : k \in 1..Len(P)} : x <= y
 MaxC(P, i) == CHOOSE x \in {P[k][i] : k \in 1..Len(P)} : \A y \in {P[k][i] : k \in 1..Len(P)} : x >= y
 \* P: points scaled by K. The sphere contains every point and is no larger than the sphere around the bounding-box diagonal.
-SphereViol(P, c, r) ==
-    LET rr == D10(r) + 3
+SphereViolS(P, c, r, sl) ==
+    LET rr == D10(r) + sl
         lo == <<MinC(P, 1), MinC(P, 2), MinC(P, 3)>>
         hi == <<MaxC(P, 1), MaxC(P, 2), MaxC(P, 3)>>
     IN  V(r >= 0 /\ \A k \in 1..Len(P) : Dist2(P[k], c) <= rr * rr, "ContainsEveryPoint")
-        \cup V(4 * (D10(r) - 3) * (D10(r) - 3) <= Dist2(lo, hi) \/ D10(r) <= 3, "NotLargerThanBoxDiagonal")
+        \cup V(4 * (D10(r) - sl) * (D10(r) - sl) <= Dist2(lo, hi) \/ D10(r) <= sl, "NotLargerThanBoxDiagonal")
+SphereViol(P, c, r) == SphereViolS(P, c, r, 3)
 ScaleP(P) == [k \in 1..Len(P) |-> <<P[k][1] * K, P[k][2] * K, P[k][3] * K>>]
 
 CaseViol(ev) ==
@@ -53,7 +54,7 @@ Clauses(ev) ==
     CASE ev.e = "case"   -> CaseViol(ev)
       [] ev.e = "rotvec" -> V(CloseVec(ev.v, ev.v2, S), "RotVecMatRoundTrip") \cup V(Ortho(ev.M), "RotVecToMatOrthonormal")
                             \cup V(CloseMat(ev.avg, ev.M, S), "AverageOfIdentical")
-      [] ev.e = "sphere" -> SphereViol(ev.P, ev.center, ev.radius)
+      [] ev.e = "sphere" -> SphereViolS(ev.P, ev.center, ev.radius, IF "slack" \in DOMAIN ev THEN ev.slack ELSE 3)
       [] ev.e = "bounds" -> SphereViol(ev.P, ev.center, ev.radius)
       [] ev.e = "crash"  -> {"NoCrash"}
       [] OTHER -> {}
